@@ -8,6 +8,7 @@ package main
 // statement about all paths of the CFG, i.e. about all inputs and states.
 
 import (
+	"go/constant"
 	"go/token"
 	"go/types"
 	"regexp"
@@ -127,6 +128,13 @@ func (fl *Flow) decompose(v ssa.Value, truth bool, out *[]Fact) {
 						*out = append(*out, fl.summaryFacts(x.X, "nil")...)
 					case isNilConst(x.X):
 						*out = append(*out, fl.summaryFacts(x.Y, "nil")...)
+					default:
+						// `classify(...) == someConstant` for a classifier of this package that returns constants only
+						if c, isC := x.Y.(*ssa.Const); isC && c.Value != nil {
+							*out = append(*out, fl.summaryFacts(x.X, "const:"+fl.K.Key(c))...)
+						} else if c, isC := x.X.(*ssa.Const); isC && c.Value != nil {
+							*out = append(*out, fl.summaryFacts(x.Y, "const:"+fl.K.Key(c))...)
+						}
 					}
 				}
 			}
@@ -499,7 +507,10 @@ func (m *modSets) implsOf(meth *types.Func) []*ssa.Function {
 // are re-expressed in the caller's terms (parameters replaced by the argument keys,
 // callee-local ids made unique) and added where the caller learns the outcome.
 
-type fnSummary struct{ all, ifTrue, ifFalse, ifNil []Fact }
+type fnSummary struct {
+	all, ifTrue, ifFalse, ifNil []Fact
+	ifConst                     map[string][]Fact // single-result classifiers: what holds whenever the constant is returned
+}
 
 var closureDepth int
 
@@ -561,6 +572,10 @@ func (fl *Flow) summaryFacts(v ssa.Value, kind string) []Fact {
 		src = sum.ifNil
 	case "all":
 		src = sum.all
+	default:
+		if strings.HasPrefix(kind, "const:") {
+			src = sum.ifConst[kind[len("const:"):]]
+		}
 	}
 	if len(src) == 0 {
 		return nil
@@ -640,6 +655,8 @@ func summarise(p *Prog, fn *ssa.Function) *fnSummary {
 		}
 	}
 	var all, ifT, ifF, ifN FactSet
+	var ifC map[string]*FactSet
+	classifier := true
 	meet := func(acc *FactSet, s FactSet) {
 		if *acc == nil {
 			*acc = s.clone()
@@ -668,6 +685,20 @@ func summarise(p *Prog, fn *ssa.Function) *fnSummary {
 			continue
 		}
 		v := retValue(r, last)
+		if kind == "" && res.Len() == 1 {
+			if cv, isC := v.(*ssa.Const); isC && cv.Value != nil && cv.Value.Kind() == constant.Int {
+				if ifC == nil {
+					ifC = map[string]*FactSet{}
+				}
+				k := fl.K.Key(cv)
+				if ifC[k] == nil {
+					ifC[k] = new(FactSet)
+				}
+				meet(ifC[k], facts)
+			} else {
+				classifier = false
+			}
+		}
 		switch kind {
 		case "bool":
 			switch {
@@ -703,6 +734,12 @@ func summarise(p *Prog, fn *ssa.Function) *fnSummary {
 		return out
 	}
 	sum := &fnSummary{all: list(all), ifTrue: list(ifT), ifFalse: list(ifF), ifNil: list(ifN)}
+	if classifier && len(ifC) > 0 {
+		sum.ifConst = map[string][]Fact{}
+		for k, fs := range ifC {
+			sum.ifConst[k] = list(*fs)
+		}
+	}
 	summaryCache[fn] = sum
 	return sum
 }
